@@ -166,6 +166,13 @@ class FuncView:
         return self._dom
 
     @property
+    def dom_exc(self):
+        """dominators with exception edges included (handlers are reachable)"""
+        if getattr(self, "_dom_exc", None) is None:
+            self._dom_exc = self.cfg._dom(self.cfg.entry, "succ", "pred", exclude_exc=False)
+        return self._dom_exc
+
+    @property
     def pdom(self):
         if self._pdom is None:
             self._pdom = self.cfg.post_dominators()
@@ -181,7 +188,24 @@ class FuncView:
         na, nb = self.node_of(a), self.node_of(b)
         if na is None or nb is None:
             return False
-        return na in self.dom[nb]
+        if na in self.dom[nb]:
+            return True
+        # b only reachable through an exception handler: judge with exception edges
+        if len(self.dom[nb]) == 1 and nb is not self.cfg.entry or self._only_exc_reachable(nb):
+            return na in self.dom_exc[nb]
+        return False
+
+    def _only_exc_reachable(self, nb) -> bool:
+        if getattr(self, "_normal_reach", None) is None:
+            seen, work = set(), [self.cfg.entry]
+            while work:
+                n = work.pop()
+                if n in seen:
+                    continue
+                seen.add(n)
+                work.extend(x for x, lab in n.succ if lab != "exc")
+            self._normal_reach = seen
+        return nb not in self._normal_reach
 
     def post_dominates(self, a, b) -> bool:
         """a post-dominates b (every normal path from b to exit passes a)."""
